@@ -35,7 +35,9 @@ func snapToGridFloat64(f float64, dp int) float64 {
 	case dp > 0:
 		scale := math.Pow10(dp)
 		scaled := f * scale
-		if scaled > math.MaxFloat64 {
+		if math.IsInf(scale, 0) || math.IsInf(scaled, 0) {
+			// Overflow (in either direction, or of the scale itself, in which
+			// case scaled would be NaN for a zero input).
 			return f
 		}
 		return math.Round(scaled) / scale
